@@ -10,16 +10,17 @@ import Glom.Model.C04Env
   depths, and all facts values that satisfy the decidable predicate `WF`;
   `c04_facts_wf` discharges `WF` for the facts regenerated from /repo on this run.
 
-  Hypothesis `Tame F c` (forced, see the three counter-examples on the current facts at the end):
-  the `type(…)` call of `GlomError.wrap` succeeds or is guarded, attribute assignment on a
-  GlomError instance succeeds or is guarded, a user `__copy__` keeps the class.
+  Hypothesis `Tame F c` (forced, see the counter-examples at the end; the known findings
+  `glomerror_refuses_setattr`, `copy_returns_other_class`): attribute assignment on a GlomError
+  instance and `bool(e)` succeed or are guarded, a user `__copy__` keeps the class.
+  (That the `type(…)` call of `GlomError.wrap` is guarded is part of `WF` since repair 205945c.)
 -/
 namespace Glom.Props.C04
 open Glom Glom.C04
 
 /-- **Facts obligation**: `glom()` in /repo has the documented keyword defaulting, the two
     nested `try` blocks in the modelled order, an outer `except Exception`, both guards
-    around `copy.copy` and inside `GlomError.wrap`, `if err is not None`, a
+    around `copy.copy` and inside `GlomError.wrap` (the `type(…)` call included), `if err is not None`, a
     `TypeMatchError.__copy__` that keeps the class, `_glom` re-raising unchanged, the
     documented `except` clauses around `iterate(target)`, `T[…]`, `T.x` and path access,
     `Spec.glom` / `Glommer.glom` handing every keyword on. -/
@@ -165,9 +166,6 @@ theorem c04_selected_monotone (F : Facts) (hwf : WF F = true) (s s' : Settings) 
   simp only [selected, Bool.and_eq_true] at hsel ⊢
   exact ⟨hsel.1, matchesAny_mono hsup _ hsel.2⟩
 
-/-- Nothing raised: the computed value is returned, never the default. -/
-theorem c04_value_passthrough (F : Facts) (s : Settings) : glomTop F s .val = .value := rfl
-
 /-! ### the class `GlomError.wrap` creates: C3 linearisation -/
 
 /-- **Soundness of the modelled C3 merge**, for arbitrary hierarchies: every class of every
@@ -283,9 +281,6 @@ theorem c04_wrap_idempotent (F : Facts) (hwf : WF F = true) (s₁ s₂ : Setting
 
 /-! ### where the fault originates -/
 
-/-- `_glom`'s `except Exception: …; raise` hands on the same exception object. -/
-theorem c04_frame_transparent (E : EvalEnv) (o : Outc) : frameG E o = o := frameG_id E o
-
 /-- A fault at any depth, under any number of nested tuple / dict / list / `Spec`-like / iterator
     frames whose earlier siblings return, reaches `glom()`'s handler as the same exception object
     (a StopIteration does not cross an iterator step). -/
@@ -306,23 +301,25 @@ theorem c04_coalesce_selective (E : EvalEnv) (pre post : List Sp) (x : Sp)
   simp only [evalCoal, hx]
 
 /-- An exception raised by a method of the TARGET (or a registered handler) inside one of glom's own
-    `try` blocks is replaced by glom's error exactly for the classes the DOCUMENTED `except` names:
-    every `Exception` around `iterate(target)` (→ TypeError) and path access (→ PathAccessError),
-    AttributeError for `T.x`, KeyError / IndexError / TypeError / ValueError for `T[…]`; every other
-    exception — and every `BaseException`-only one — passes as the same object. -/
-theorem c04_conv_selective (E : EvalEnv) (hwf : WF E.F = true) (k : Conv) :
-    eval E (.faultConv k) =
-      (if matchesAny E.inj (match k with
-          | .iter | .path => ["Exception"]
-          | .getattr => ["AttributeError"]
-          | .getitem => ["KeyError", "IndexError", "TypeError", "ValueError"])
-       then .exc (E.internal (match k with | .iter => "TypeError" | _ => "PathAccessError"))
-       else .exc E.inj) := by
-  have w := WF_parts hwf
-  simp only [eval, frameG_id]
-  cases k <;>
-    simp only [Facts.convCatch, Facts.convRaises, w.iterCatch, w.iterRaises, w.getitemCatch, w.getattrCatch,
-      w.pathCatch]
+    `try` blocks leaves the WHOLE `glom()` call as an instance of glom's own error (with that error's args)
+    exactly for the classes the DOCUMENTED `except` names: every `Exception` around `iterate(target)`
+    (→ TypeError) and path access (→ PathAccessError), AttributeError for `T.x`, KeyError / IndexError /
+    TypeError / ValueError for `T[…]`; for every other exception — and every `BaseException`-only one — as an
+    instance of the class raised, with its args. -/
+theorem c04_conv_outcome (E : EvalEnv) (hwf : WF E.F = true) (hinj : Tame E.F E.inj.cls)
+    (hint : ∀ c, Tame E.F (E.internal c).cls) (k : Conv) (s : Settings) (out : ExcObj)
+    (h : glomTop E.F s (toBody (eval E (.faultConv k))) = .exc out) :
+    (matchesAny E.inj (docCatch k) = true →
+      isInst out (E.internal (docRaises k)).cls.name = true ∧ out.args = (E.internal (docRaises k)).args) ∧
+    (matchesAny E.inj (docCatch k) = false → isInst out E.inj.cls.name = true ∧ out.args = E.inj.args) := by
+  rw [conv_eval E (WF_parts hwf) k] at h
+  constructor
+  · intro hm
+    rw [if_pos hm] at h
+    exact ⟨c04_class E.F hwf s _ out (hint _) h, c04_args E.F hwf s _ out (hint _) h⟩
+  · intro hm
+    rw [if_neg (by simp [hm])] at h
+    exact ⟨c04_class E.F hwf s _ out hinj h, c04_args E.F hwf s _ out hinj h⟩
 
 /-- The exception that reaches `glom()`'s handler is the prepared object — as it is, or as the
     handlers of nested `glom()` calls re-raised it: an instance of every class of the original, same args —
@@ -379,11 +376,6 @@ theorem c04_nested_selective (E : EvalEnv) (hwf : WF E.F = true) (x : Sp) (s : S
     obtain ⟨out, ho, _⟩ := outer_raised w s e ht
     simp [ho]
 
-/-- The correspondence driver evaluates the checker against the origin computed with the
-    DOCUMENTED facts rather than the extracted ones; for well-formed facts the two coincide. -/
-theorem c04_reference_origin (F : Facts) (hwf : WF F = true) :
-    docFacts F.wrapTypeInTry F.attrGuarded = F := (WF_eq hwf).symm
-
 /-- **Checker theorem** — the form in which the property is also evaluated on the
     implementation's observation by the correspondence driver. -/
 theorem c04_model_checks (F : Facts) (hwf : WF F = true) (s : Settings) (e : ExcObj) (ht : Tame F e.cls)
@@ -424,7 +416,7 @@ theorem c04_model_checks (F : Facts) (hwf : WF F = true) (s : Settings) (e : Exc
               · have hg' : isInst e "GlomError" = false := by simpa using hg
                 have hrb : rebuildable e = true := by simpa [hg'] using hre
                 have hsl : e.cls.sealed = false := by
-                  simp only [extensible, Bool.and_eq_true, Bool.not_eq_true'] at hext; exact hext.1
+                  simp only [extensible, Bool.and_eq_true, Bool.not_eq_true'] at hext; exact hext.1.1
                 exact Or.inr ⟨hrb, hext, hlin hg' hsl⟩
             obtain ⟨out', h'', hg⟩ := handler_glomerror w s e ht hd hcond
             rw [h'] at h''; cases h''; exact hg
@@ -476,16 +468,18 @@ theorem c04_class_counterexample_falsy :
       (.exc (mkExc (G "FalsyG" (.sig 0 none false .all) true) [.int 1])))
       (fun out => !isInst out "FalsyG") = true := by decide +kernel
 
-/-! ### the hypothesis `Tame` is forced: on the shape /repo HAS (the `type(…)` call of `GlomError.wrap`
-    outside its `try`, `_set_wrapped` / `_finalize` unguarded) three kinds of classes break `c04_class` -/
-
-/-- a class that refuses to be subclassed (`__init_subclass__` / a metaclass raises): the TypeError of
-    the `type(…)` call leaves `glom()` — `c04_class` fails. -/
+/-- before 205945c (the `type(…)` call of `GlomError.wrap` outside its `try`): a class that refuses to be
+    subclassed (`__init_subclass__` / a metaclass raises) leaves `glom()` as the TypeError of the `type(…)`
+    call — `c04_class` fails. -/
 theorem c04_class_counterexample_sealed :
     leaves (glomTop { genFacts with wrapTypeInTry := false } noSettings
       (.exc (mkExc (mkClass "Final" ["Exception", "BaseException", "object"] (.sig 0 none false .all)
         false .args true) [.int 1])))
       (fun out => !isInst out "Final") = true := by decide +kernel
+
+/-! ### the hypothesis `Tame` is forced: on the shape /repo HAS (`_set_wrapped` / `_finalize` unguarded, a
+    copy of another class accepted) three kinds of classes break `c04_class` — KNOWN FINDINGS
+    `glomerror_refuses_setattr` (the first two) and `copy_returns_other_class` -/
 
 /-- a GlomError subclass whose `__setattr__` raises (a frozen dataclass): the AttributeError of
     `err._set_wrapped(e)` leaves `glom()` — `c04_class` fails. -/
@@ -494,6 +488,14 @@ theorem c04_class_counterexample_frozen :
       (.exc (mkExc (mkClass "Fz" ["GlomError", "Exception", "BaseException", "object"] (.sig 0 none false .all)
         false .args false true) [.int 1])))
       (fun out => !isInst out "Fz") = true := by decide +kernel
+
+/-- an exception whose `__bool__` raises: `_finalize` formats the traceback of the exception being handled,
+    which evaluates `bool(e)`; the RuntimeError leaves `glom()` — `c04_class` fails. -/
+theorem c04_class_counterexample_bool_raises :
+    leaves (glomTop { genFacts with attrGuarded := false } noSettings
+      (.exc (mkExc (mkClass "Bo" ["Exception", "BaseException", "object"] (.sig 0 none false .all)
+        false .args false false true) [.int 1])))
+      (fun out => !isInst out "Bo") = true := by decide +kernel
 
 /-- a GlomError subclass whose `__copy__` returns an object of another class with the same args: the
     copy is raised — `c04_class` fails (whatever the guards). -/
@@ -523,9 +525,9 @@ private def tag : Outc → Option (Nat × String × Args)
 
 -- `Tame`: every class whose wrapper class Python can create, without a hostile `__copy__`
 example : Tame genFacts keyErr.cls :=
-  ⟨Or.inr (Or.inl (by decide +kernel)), fun h => by revert h; decide +kernel, by decide⟩
+  ⟨fun h => by revert h; decide +kernel, Or.inr rfl, by decide⟩
 example : Tame genFacts pathErr.cls :=
-  ⟨Or.inr (Or.inr (by decide +kernel)), fun _ => Or.inr rfl, by decide⟩
+  ⟨fun _ => Or.inr rfl, Or.inr rfl, by decide⟩
 example : ClassOK keyErr.cls := fun h => by revert h; decide +kernel
 -- `c04_glomerror`: a rebuildable Exception subclass, debug off → leaves as GlomError.wrap(KeyError)
 example : isInst keyErr "Exception" = true ∧ rebuildable keyErr = true ∧ extensible keyErr = true ∧
@@ -606,7 +608,7 @@ example : tag (eval exE (.coal ([.badPath] ++ .fault :: [.ok]) none false)) = so
     tag (eval exE (.coal ([.badPath] ++ .fault :: []) (some ["LookupError"]) false)) = some (1000, "CoalesceError", []) ∧
     tag (eval exE (.coal ([.badPath] ++ .fault :: [.ok]) (some ["LookupError"]) false)) = none := by
   decide +kernel
--- `c04_conv_selective`: a KeyError of `__getitem__` becomes PathAccessError, of `__getattr__` passes,
+-- `c04_conv_outcome`: a KeyError of `__getitem__` becomes PathAccessError, of `__getattr__` passes,
 -- of `__iter__` becomes TypeError; a KeyboardInterrupt passes everywhere
 example : tag (eval exE (.faultConv .getitem)) = some (1000, "PathAccessError", []) ∧
     tag (eval exE (.faultConv .getattr)) = some (0, "KeyError", [.str "k"]) ∧
